@@ -152,6 +152,7 @@ extern "C" void vec_so3_3(const double* i, double* o){ vm::vec_ops<SO3,3,0>(i,o)
 extern "C" void vec_se2_2(const double* i, double* o){ vm::vec_ops<SE2,2,0>(i,o);}
 extern "C" void vec_vx_2(const double* i, double* o){ vm::vec_ops<VX,2,3>(i,o);}
 extern "C" void vec_vx_0(const double* i, double* o){ vm::vec_ops<VX,0,3>(i,o);}
+extern "C" void vec_mixed(const double* i, double* o){ vm::vec_mixed(i,o);}
 extern "C" void var_0(const double* i, double* o){ vm::var_ops<0>(i,o);}
 extern "C" void var_1(const double* i, double* o){ vm::var_ops<1>(i,o);}
 extern "C" void var_2(const double* i, double* o){ vm::var_ops<2>(i,o);}
@@ -259,6 +260,20 @@ def job_vector(fn, gname, N, esz, tier):
         compare(res, "%s/path%d" % (key, pi), bp, None, alts, asm, feas)
     if not nok:
         res.errors.append(key + ": vacuous")
+    return res
+
+
+def job_vector_mixed(tier):
+    """std::vector<VectorXd> with element sizes (3,1,2): element i uses the tangent segment starting at the SUM of the preceding dofs"""
+    T.reset_terms()
+    res = check.Result()
+    h = check.Harness("man_containers", CONT_TU)
+    m, n, a = G.syms("m", 6), G.syms("n", 6), G.syms("a", 6)
+
+    def oracle(ins, outs=None):
+        return [T.Const(6)] + [T.Add(m[k], a[k]) for k in range(6)] + [T.Sub(m[k], n[k]) for k in range(6)]
+    check.check_wrapper(res, h, "vec_mixed", m + n + a, 13, oracle, "vector/mixed-dynamic-sizes(3,1,2)", tol=1e-12, pid=PID,
+                        sampler=lambda k: [random.Random(k * 7 + i).uniform(-2, 2) for i in range(18)], nvalidate=4)
     return res
 
 
@@ -406,7 +421,7 @@ def job_sub(gname, mask, tu, tier):
 
 def main(tier):
     run = check.Run(PID, tier)
-    check.JOB_BUDGET[0] = 240 if tier == 'quick' else 3000
+    check.JOB_BUDGET[0] = 240 if tier == 'quick' else 1500
     names = ["SO2", "SO3", "SE2", "C1", "T3"] + (["SE3", "Galilei"] if tier == "thorough" else [])
     jobs = []
     for n in names:
@@ -420,6 +435,7 @@ def main(tier):
     for fn, gname, N, esz in [("vec_so3_0", "SO3", 0, 0), ("vec_so3_1", "SO3", 1, 0), ("vec_so3_3", "SO3", 3, 0), ("vec_se2_2", "SE2", 2, 0),
                               ("vec_vx_2", "VX", 2, 3), ("vec_vx_0", "VX", 0, 3)]:
         jobs.append((job_vector, (fn, gname, N, esz, tier)))
+    jobs.append((job_vector_mixed, (tier,)))
     for alt in range(3):
         jobs.append((job_variant, (alt, tier)))
     for fn, gname in [("any_so3", "SO3"), ("any_se2", "SE2"), ("any_v2", "T2")]:
@@ -427,7 +443,7 @@ def main(tier):
     for gname in ("SO3", "SE2", "T3"):
         for mask in masks3:
             jobs.append((job_sub, (gname, mask, tu, tier)))
-    run.extend(check.run_jobs(jobs, timeout=900 if tier == "quick" else 3600))
+    run.extend(check.run_jobs(jobs, timeout=900 if tier == "quick" else 1800))
     run.bounds += ["axioms on: " + ", ".join(names), "std::vector sizes 0,1,2,3; variant alternatives SO3, Vector2d, double; AnyManifold of SO3, SE2, Vector2d",
                    "SubManifold<SO3|SE2|Vector3d>: all 8 subsets of fixed dimensions"]
     run.assumptions += ["layer R", "rotation parts below pi; canonical elements", "AnyManifold Default/cast are documented to throw and are outside the claim"]
